@@ -274,10 +274,11 @@ func decJob(e encoded, want []byte, class string, chunking string, alt int, lean
 			// unflushed-dst-far-match needs BOTH a chunked source and a destination that is replaced while the stream
 			// is decoded (a match must reach before the start of the current destination buffer). The cause is only
 			// confirmed when the stream decodes correctly (a) in one piece and (b) with the SAME source chunking but one
-			// destination buffer that holds the whole output (every match then stays inside dst.history): a defect of
+			// destination buffer that holds the whole output plus the 274 spare bytes std/lzma insists on before a match
+			// copy (it is then never replaced: every match stays inside dst.history): a defect of
 			// suspension/resumption on a chunked source fails (b) and is reported under its own key.
 			if strings.Contains(opts, "src=") && !strings.HasPrefix(status, "crash") && !strings.HasPrefix(status, "io-contract") &&
-				rerun(dropSrcOpt(opts)) && rerun(oneDst(opts, len(want)+1)) {
+				rerun(dropSrcOpt(opts)) && rerun(oneDst(opts, len(want)+4096)) {
 				cr.fails = append(cr.fails, hlib.Failure{Key: "decode:lzma-family:unflushed-dst-far-match",
 					Desc: fmt.Sprintf("Wuffs %s (%s) on a valid stream (%s, payload %s %d bytes) ends with %s / wrong bytes when the source arrives in chunks (%s): after a `$short read` the destination buffer still holds bytes of earlier calls, and a match reaching before the start of that buffer is fetched from the wrong place of the workbuf ring (std/lzma lacks the `transformed_history_count - dst.history_position()` correction that std/deflate has); the same stream decodes correctly when supplied in one piece", e.codec, fl, e.setting, class, len(want), status, chunking), Replay: replay})
 				cr.counts = append(cr.counts, "known:unflushed-dst-far-match")
@@ -299,6 +300,12 @@ func decJob(e encoded, want []byte, class string, chunking string, alt int, lean
 			switch e.codec {
 			case "deflate":
 				cr.ops = append(cr.ops, opLine{"dec deflate " + hlib.Hex(e.data), impl})
+				// the mirror of std/deflate (Model/StdDeflate.lean) must give what the C gave, incl. bytes consumed
+				wimpl := "err " + status
+				if status == "ok" {
+					wimpl = fmt.Sprintf("ok %s used=%d", outOf(got.Bytes()), len(e.data)-len(rest))
+				}
+				cr.ops = append(cr.ops, opLine{"wdec deflate " + hlib.Hex(e.data), wimpl})
 			case "zlib":
 				cr.ops = append(cr.ops, opLine{"dec zlib " + hlib.Hex(e.dict) + " " + hlib.Hex(e.data), impl})
 			case "gzip":
@@ -317,6 +324,69 @@ func decJob(e encoded, want []byte, class string, chunking string, alt int, lean
 		cr.nontriv = append(cr.nontriv, fmt.Sprintf("dec|%s|%s|%s|%d|%s", e.codec, e.setting, class, len(want), chunking))
 		return cr
 	}
+}
+
+// malformedJob: correspondence only (no oracle: the property is about valid data) — the mirror of std/deflate
+// and the C compiled from the working tree must end with the same status (and the same bytes when that is ok)
+// on a damaged stream, one transform_io call, source closed.
+func malformedJob(data []byte, how string, alt int, chunk string) job {
+	return func(w *worker) caseResult {
+		var cr caseResult
+		d := w.simd
+		if alt%2 == 1 {
+			d = w.generic
+		}
+		cmd := strings.Join(strings.Fields(fmt.Sprintf("run deflate %s digest=0 maxout=268435456 %s", chunk, hlib.Hex(data))), " ")
+		line, res := runCmd(d, cmd)
+		impl := "run-failed " + trunc(line, 100)
+		if res != nil {
+			if res.Status == "ok" {
+				b, _ := hex.DecodeString(strings.TrimPrefix(res.OutHex, "-"))
+				impl = fmt.Sprintf("ok %s used=%d", outOf(b), res.Ri)
+				cr.counts = append(cr.counts, "malformed:still-ok")
+			} else {
+				impl = "err " + res.Status
+				cr.counts = append(cr.counts, "malformed:"+res.Status)
+			}
+		}
+		cr.ops = append(cr.ops, opLine{"wdec deflate " + hlib.Hex(data), impl})
+		cr.counts = append(cr.counts, "malformed-how:"+how)
+		cr.nontriv = append(cr.nontriv, fmt.Sprintf("malformed|%s|%d|%s", how, len(data), cdrv.FNV64(data)))
+		return cr
+	}
+}
+
+// damage: one structured mutation of a valid deflate stream
+func damage(rng *hlib.Rand, z []byte) ([]byte, string) {
+	out := append([]byte{}, z...)
+	if len(out) == 0 {
+		return []byte{byte(rng.Intn(256))}, "one-byte"
+	}
+	switch rng.Intn(6) {
+	case 0: // truncate
+		return out[:rng.Intn(len(out))], "truncate"
+	case 1: // flip one bit in the first 40 bytes (block headers, code length tables)
+		m := len(out)
+		if m > 40 {
+			m = 40
+		}
+		i := rng.Intn(m)
+		out[i] ^= 1 << uint(rng.Intn(8))
+		return out, "flip-header-bit"
+	case 2: // flip one bit anywhere
+		i := rng.Intn(len(out))
+		out[i] ^= 1 << uint(rng.Intn(8))
+		return out, "flip-bit"
+	case 3: // overwrite a byte
+		out[rng.Intn(len(out))] = byte(rng.Intn(256))
+		return out, "overwrite-byte"
+	case 4: // block type 3 / random 3-bit header
+		out[0] = out[0]&^7 | byte(rng.Intn(8))
+		return out, "first-header"
+	}
+	// drop a byte in the middle
+	i := rng.Intn(len(out))
+	return append(out[:i], out[i+1:]...), "drop-byte"
 }
 
 // refDecodes: Go's own decoder reproduces the payload from e.data (codecs without a Go decoder: true).
@@ -502,6 +572,12 @@ func main() {
 			os.Exit(1)
 		}
 		r.WriteGen("C07_Tables.lean", text)
+		text, err = genDeflate(r.Repo)
+		if err != nil {
+			fmt.Fprintln(os.Stderr, "gen:", err)
+			os.Exit(1)
+		}
+		r.WriteGen("C07_Deflate.lean", text)
 		return
 	}
 	defer cdrv.Cleanup()
@@ -583,6 +659,11 @@ func main() {
 		leanDec *= 6
 	}
 	alt := 0
+	mr := rng.Fork()
+	malformedBudget := 240 // damaged deflate streams (model/implementation status correspondence)
+	if r.Thorough {
+		malformedBudget = 3000
+	}
 	addDec := func(e encoded, p payload, chunk string) {
 		// the reference encoder must be valid for the reference decoder too (Go's flate writer with a preset
 		// dictionary has been seen to copy the dictionary into a stored block: not a valid encoding of p)
@@ -596,6 +677,18 @@ func main() {
 		}
 		alt++
 		jobs = append(jobs, decJob(e, p.data, p.class, chunk, alt, lean))
+		if lean && e.codec == "deflate" && len(e.data) <= 6000 && malformedBudget > 0 {
+			for k := 0; k < 3; k++ {
+				bad, how := damage(mr, e.data)
+				malformedBudget--
+				alt++
+				ch := ""
+				if k == 2 {
+					ch = "src=1 dst=1" // forces the slow path of the C code for the whole stream
+				}
+				jobs = append(jobs, malformedJob(bad, how, alt, ch))
+			}
+		}
 	}
 	for pi, p := range pays {
 		// flate family: in the quick tier each payload gets a rotating subset of levels
